@@ -49,16 +49,21 @@ func (o *Once) Do(f func()) { o.s.Do(f) }
 
 // Pool: sync.Pool may hand back any object put earlier, or a fresh one. That is an environment
 // answer; the two extreme policies are selectable (vsched.PoolRetain): retain nothing (always New)
-// or retain everything (LIFO). Checks that depend on it run under both.
+// or retain everything (LIFO or FIFO). Checks that depend on it run under all three.
 type Pool struct {
 	New   func() interface{}
 	items []interface{}
 }
 
 func (p *Pool) Get() interface{} {
-	if vsched.PoolRetain && len(p.items) > 0 {
+	if vsched.PoolRetain == 1 && len(p.items) > 0 {
 		it := p.items[len(p.items)-1]
 		p.items = p.items[:len(p.items)-1]
+		return it
+	}
+	if vsched.PoolRetain == 2 && len(p.items) > 0 {
+		it := p.items[0]
+		p.items = p.items[1:]
 		return it
 	}
 	if p.New != nil {
@@ -68,7 +73,7 @@ func (p *Pool) Get() interface{} {
 }
 
 func (p *Pool) Put(x interface{}) {
-	if vsched.PoolRetain {
+	if vsched.PoolRetain != 0 {
 		p.items = append(p.items, x)
 	}
 }
